@@ -1,6 +1,6 @@
 SPECIFICATION Spec
 CONSTANTS
-  Hosts = {"h1", "h2"}
+  Hosts = {"h1", "h2", "h3"}
   Fps = {"f1", "f2"}
   Ops <- MCOps
   DevReplaceClearsInOwnTxn = FALSE
